@@ -440,10 +440,20 @@ func newTree(prof *profile.Profile, o *Options) (g *Graph) {
 		}
 	}
 
+	// Collect the nodes by walking the tree from the roots, visiting the
+	// children of each node in a fixed order, so that the result does not
+	// depend on map iteration order.
 	nodes := make(Nodes, 0, len(prof.Location))
-	for _, nm := range parentNodeMap {
-		nodes = append(nodes, nm.nodes()...)
+	var collect func(parent *Node)
+	collect = func(parent *Node) {
+		children := parentNodeMap[parent].nodes()
+		sort.Slice(children, func(i, j int) bool { return compareNodes(children[i], children[j]) })
+		for _, n := range children {
+			nodes = append(nodes, n)
+			collect(n)
+		}
 	}
+	collect(nil)
 	return selectNodesForGraph(nodes, o.DropNegative)
 }
 
